@@ -154,20 +154,82 @@ func hasDAGSharing(g Graph) bool {
 }
 
 // every third graph is drawn until it has DAG sharing (the plain distribution yields it in one graph out of
-// twenty, and a single node in almost half)
+// twenty, and a single node in almost half), every fourth until two of its objects hold the same attributes
 func randGraph(r *rand.Rand) Graph {
-	shared := r.Intn(3) == 0
+	mode := r.Intn(12)
+	shared, aliased := mode < 4, mode >= 4 && mode < 7 // a quarter: drawn until one object can take over another's attributes (Extend)
 	for try := 0; ; try++ {
 		x := &rgen{r: r, maxN: 2 + r.Intn(4), share: 2 + 3*r.Intn(2)} // every other graph: many references to the same user types
-		if shared {
+		if shared || aliased {
 			x.maxN, x.share = 3+r.Intn(3), 5
 		}
 		root := x.term(0)
 		x.g.Root = root
-		if wellFormed(x.g) && (!shared || try > 500 || hasDAGSharing(x.g)) {
+		if !wellFormed(x.g) {
+			continue
+		}
+		if aliased && try <= 500 {
+			if e, ok := extend(r, x.g); ok {
+				return e
+			}
+			continue
+		}
+		if !shared || try > 500 || hasDAGSharing(x.g) {
 			return x.g
 		}
 	}
+}
+
+// extend is TypeGraph!ExtendG for one pair of objects drawn at random: object o2 gets the very attributes of
+// object o1 (whose types are leaves or user types), in the slot of its attribute of that name, else at the
+// end.  The result is put into canonical form by building it and projecting it back.
+func extend(r *rand.Rand, g Graph) (Graph, bool) {
+	type pair struct{ o1, o2 int }
+	var ps []pair
+	for i, a := range g.Nodes {
+		ok := a.Kind == "object" && len(a.Attrs) >= 1
+		for _, at := range a.Attrs {
+			ok = ok && (at.Ref.N == 0 || isUserKind(g.Nodes[at.Ref.N-1].Kind))
+		}
+		if !ok {
+			continue
+		}
+		for j, b := range g.Nodes {
+			if j != i && b.Kind == "object" {
+				ps = append(ps, pair{i, j})
+			}
+		}
+	}
+	if len(ps) == 0 {
+		return g, false
+	}
+	p := ps[r.Intn(len(ps))]
+	c := cloneGraph(g)
+	for k := range c.Nodes[p.o1].Attrs {
+		c.Nodes[p.o1].Attrs[k].Al = k + 1
+	}
+	for _, a := range c.Nodes[p.o1].Attrs {
+		at := -1
+		for k, b := range c.Nodes[p.o2].Attrs {
+			if b.Name == a.Name {
+				at = k
+			}
+		}
+		if at >= 0 {
+			c.Nodes[p.o2].Attrs[at] = a
+		} else {
+			c.Nodes[p.o2].Attrs = append(c.Nodes[p.o2].Attrs, a)
+		}
+	}
+	e, _ := canon(build(c).root)
+	for _, nd := range e.Nodes {
+		for _, a := range nd.Attrs {
+			if a.Al != 0 {
+				return e, wellFormed(e)
+			}
+		}
+	}
+	return g, false
 }
 
 // node i lies on a cycle (TypeGraph!OnCycle)
@@ -219,7 +281,7 @@ func randTransform(r *rand.Rand, g Graph, sharing bool) Transform {
 	var ts, sh []Transform
 	t0 := func(op string, n, i int) Transform { return Transform{Op: op, Node: n, Idx: i, Perm: []int{}} }
 	ts = append(ts, t0("copy", 0, 0), t0("copyatt", 0, 0))
-	rev := false
+	rev, alias := false, false
 	for i, nd := range g.Nodes {
 		id := i + 1
 		isNamed := nd.Kind == "object" || nd.Kind == "union"
@@ -252,6 +314,16 @@ func randTransform(r *rand.Rand, g Graph, sharing bool) Transform {
 		}
 		for k, a := range nd.Attrs {
 			ix := k + 1
+			if isNamed && !hasName(nd, "z") {
+				ts = append(ts, t0("ren", id, ix))
+			}
+			if nd.Kind == "object" || (nd.Kind == "union" && len(nd.Attrs) >= 2) {
+				ts = append(ts, t0("del", id, ix))
+			}
+			if a.Al != 0 { // held by two objects: the slot can be renamed or removed, the attribute itself is left alone
+				alias = true
+				continue
+			}
 			ts = append(ts, t0([]string{"desc", "val", "req", "meta", "deco"}[r.Intn(5)], id, ix))
 			if nd.Kind == "object" {
 				for {
@@ -263,12 +335,6 @@ func randTransform(r *rand.Rand, g Graph, sharing bool) Transform {
 						break
 					}
 				}
-			}
-			if isNamed && !hasName(nd, "z") {
-				ts = append(ts, t0("ren", id, ix))
-			}
-			if nd.Kind == "object" || (nd.Kind == "union" && len(nd.Attrs) >= 2) {
-				ts = append(ts, t0("del", id, ix))
 			}
 			if a.Ref.N == 0 && a.Ref.P != "Empty" {
 				ts = append(ts, t0("prim", id, ix))
@@ -291,6 +357,9 @@ func randTransform(r *rand.Rand, g Graph, sharing bool) Transform {
 	}
 	if rev {
 		ts = append(ts, t0("rev", 0, 0))
+	}
+	if alias {
+		ts = append(ts, t0("unalias", 0, 0), t0("unalias", 0, 0), t0("unalias", 0, 0))
 	}
 	if sharing && len(sh) > 0 {
 		return sh[r.Intn(len(sh))]
